@@ -7,7 +7,9 @@ package main
 // by a rely step.
 
 import (
+	"fmt"
 	"go/types"
+	"os"
 	"strings"
 
 	"golang.org/x/tools/go/ssa"
@@ -70,6 +72,9 @@ func (x *Exec) commandKind(st *State, p VPtr) (int64, bool) {
 // checkBatchCommand proves that executing the command from an arbitrary
 // database state is a guarantee step.
 func (x *Exec) checkBatchCommand(st *State, p VPtr) {
+	if os.Getenv("GOVC_DEBUG_BATCH") != "" {
+		fmt.Fprintln(os.Stderr, "checkBatchCommand", st.ghost.db.mode)
+	}
 	g := st.ghost.db
 	x.siteAsserts(st, st.top(), "batch", "", map[string]TV{"cmd": {p, p.Typ}})
 	if st.dead {
@@ -84,24 +89,27 @@ func (x *Exec) checkBatchCommand(st *State, p VPtr) {
 	if cs == nil || cs.Read != nil {
 		return
 	}
-	saved := g.snapshot()
-	g.relyStep("rely") // an arbitrary reachable database
-	rec := &YieldRec{Kind: "store", Pre: g.snapshot(), Now: g.now, Pos: "batched command"}
-	fr := st.top()
-	var pos ssa.Instruction
-	if fr.ip < len(fr.block.Instrs) {
-		pos = fr.block.Instrs[fr.ip]
-	}
+	_ = g
+	// the check runs on a copy of the state: the command may fork (row present or not, failure), every
+	// outcome is a guarantee step from an arbitrary reachable database; the state itself goes on untouched
+	chk := st.clone()
+	cg := chk.ghost.db
+	cg.x = x
+	cg.relyStep("rely") // an arbitrary reachable database
+	pre := cg.snapshot()
+	now := cg.now
 	cc := &callCtx{common: &ssa.CallCommon{}}
-	_ = pos
-	outs := x.coroCommandAt(st, cc, p, fr)
-	if len(outs) == 1 && !st.dead {
-		rec.Post = g.snapshot()
+	for _, out := range x.coroCommandAt(chk, cc, p, chk.top()) {
+		if out.st == nil || out.st.dead {
+			continue
+		}
+		rec := &YieldRec{Kind: "store", Pre: pre, Now: now, Pos: "batched command"}
+		if out.rec != nil {
+			rec.Cmds = []*CmdRec{out.rec}
+		}
+		rec.Post = out.st.ghost.db.snapshot()
 		x.batchCounter++
-		x.guaranteeObligations(st, cc, rec, 1000+x.batchCounter)
-	}
-	for k, v := range saved {
-		g.cur[k] = v
+		x.guaranteeObligations(out.st, cc, rec, 1000+x.batchCounter)
 	}
 }
 
